@@ -199,6 +199,80 @@ class Facts:
         return self._tpl
 
 
+def _inline_quote_vars(item):
+    """`let part = quote! { .. }; quote! { .. #part .. }` is the template with the part spliced in.  For every fn: quote! fragments bound
+    once to a plain local are substituted (textually, recursively) into the templates that interpolate them, so that the template rules
+    see the same token text whether a maintainer wrote the template in one piece or assembled it from named pieces."""
+    import re as _re
+
+    def walk(n, fn_stack):
+        if isinstance(n, list):
+            for x in n:
+                walk(x, fn_stack)
+            return
+        if not isinstance(n, dict):
+            return
+        if n.get('k') == 'fn' and 'body' in n:
+            process_fn(n)
+        for v in n.values():
+            if isinstance(v, (dict, list)):
+                walk(v, fn_stack)
+
+    def nodes(n):
+        if isinstance(n, dict):
+            yield n
+            for v in n.values():
+                if isinstance(v, (dict, list)):
+                    for x in nodes(v):
+                        yield x
+        elif isinstance(n, list):
+            for x in n:
+                for y in nodes(x):
+                    yield y
+
+    def process_fn(fn):
+        binds, count = {}, {}
+        for n in nodes(fn['body']):
+            if n.get('k') == 'fn' and n is not fn:
+                continue
+            if n.get('k') == 'let':
+                pat = (n.get('pat') or '').replace('mut ', '').strip()
+                if _re.fullmatch(r'[A-Za-z_]\w*', pat or ''):
+                    count[pat] = count.get(pat, 0) + 1
+                    init = n.get('init') or {}
+                    if init.get('k') == 'macro' and init.get('name') in ('quote', 'quote_spanned') and init.get('tokens') is not None:
+                        binds[pat] = init
+            elif n.get('k') == 'assign':
+                lhs = n.get('l') or {}
+                if lhs.get('k') == 'path':
+                    count[lhs.get('text')] = count.get(lhs.get('text'), 0) + 2
+        binds = {k: v for k, v in binds.items() if count.get(k) == 1}
+        if not binds:
+            return
+
+        def expand(tokens, depth, seen):
+            if depth > 4:
+                return tokens
+            def rep(m):
+                name = m.group(1)
+                if name in binds and name not in seen:
+                    inner = binds[name]['tokens']
+                    if binds[name].get('name') == 'quote_spanned' and '=>' in inner:
+                        inner = inner.split('=>', 1)[1]
+                    return ' ' + expand(inner, depth + 1, seen | {name}) + ' '
+                return m.group(0)
+            # `# name` not followed by `(`-repetition syntax and not part of `#(`
+            return _re.sub(r'#\s*([A-Za-z_]\w*)\b(?!\s*\()', rep, tokens)
+        for n in nodes(fn['body']):
+            if n.get('k') == 'macro' and n.get('name') in ('quote', 'quote_spanned', 'parse_quote') and n.get('tokens') is not None:
+                new = expand(n['tokens'], 0, frozenset())
+                if new != n['tokens']:
+                    n['tokens_written'] = n['tokens']
+                    n['tokens'] = new
+                    n['vars'] = sorted(set(_re.findall(r'#\s*([A-Za-z_]\w*)', new)))
+    walk(item, [])
+
+
 class Tpl:
     """syntax-tree facts (zl-tpl)"""
 
@@ -207,6 +281,11 @@ class Tpl:
         self.files = {f['file']: f for f in doc['files']}
         if doc.get('errors'):
             raise CheckError('zl-tpl could not parse: %s' % doc['errors'][:3])
+        if not os.environ.get('ZL_NO_QUOTE_INLINE'):
+            for fname, f in self.files.items():
+                if 'zlink-macros/' in fname or 'zlink-codegen/' in fname:
+                    for it in f['items']:
+                        _inline_quote_vars(it)
 
     def items(self, file_sub=None, kind=None):
         for fn, f in self.files.items():
